@@ -974,8 +974,8 @@ Proof.
 Qed.
 
 (* one step of the handler's scan over a word that does not start with a dash *)
-Lemma env_scan_nodash a r : dash a = false ->
-  env_scan (a :: r) = if has_eq a then env_scan r else HWords [a :: r] false.
+Lemma env_scan_nodash k a r : dash a = false ->
+  env_scan k (a :: r) = if has_eq a then env_scan (if sets_exec a then k ++ [a] else k) r else HWords [k ++ a :: r] false.
 Proof.
   intro H. cbn [env_scan]. rewrite (dash_false_not_ddash_early a H).
   unfold starts. change (s2l "--") with [45; 45]. rewrite (dash_false_starts _ a H). rewrite H. cbn [andb].
@@ -984,13 +984,17 @@ Qed.
 
 Definition assign_word (a : str) : bool := has_eq a && negb (dash a).
 
-Lemma env_scan_assigns assigns : forall l, forallb assign_word assigns = true ->
-  env_scan (assigns ++ l) = env_scan l.
+(* the assignments env keeps in front of the command: those that set a variable deciding what runs, in order *)
+Definition env_kept (assigns : list str) : list str := filter sets_exec assigns.
+
+Lemma env_scan_assigns assigns : forall k l, forallb assign_word assigns = true ->
+  env_scan k (assigns ++ l) = env_scan (k ++ env_kept assigns) l.
 Proof.
-  induction assigns as [|a r IH]; intros l H; [reflexivity|].
+  induction assigns as [|a r IH]; intros k l H; [cbn [app env_kept filter]; rewrite app_nil_r; reflexivity|].
   cbn [forallb] in H. apply andb_true_iff in H as [Ha Hr]. unfold assign_word in Ha.
   apply andb_true_iff in Ha as [He Hd]. apply negb_true_iff in Hd.
-  cbn [app]. rewrite env_scan_nodash by exact Hd. rewrite He. apply IH, Hr.
+  cbn [app]. rewrite env_scan_nodash by exact Hd. rewrite He. rewrite IH by exact Hr.
+  unfold env_kept. cbn [filter]. destruct (sets_exec a); [rewrite <- app_assoc|]; reflexivity.
 Qed.
 
 Lemma drop_assign_app assigns : forall l, forallb assign_word assigns = true ->
@@ -1036,10 +1040,11 @@ Proof.
   rewrite O3, O4. reflexivity.
 Qed.
 
-(* env [NAME=VALUE]... COMMAND ARG... *)
+(* env [NAME=VALUE]... COMMAND ARG... : env executes COMMAND ARG...; the handler delegates it behind the kept
+   assignments (an assignment prefix: it cannot hide the command, and `PATH=dir cmd` is asked by the walker) *)
 Lemma env_extract assigns c0 cs :
   forallb assign_word assigns = true -> dash c0 = false -> has_eq c0 = false ->
-  env_h (s2l "env" :: assigns ++ c0 :: cs) = HWords [c0 :: cs] false /\
+  env_h (s2l "env" :: assigns ++ c0 :: cs) = HWords [env_kept assigns ++ c0 :: cs] false /\
   env_exec (assigns ++ c0 :: cs) = Some [c0 :: cs].
 Proof.
   intros Ha Hd He. split.
@@ -1047,6 +1052,21 @@ Proof.
     rewrite He. reflexivity.
   - unfold env_exec. cbn [env_exec_f]. rewrite (gx_operands assigns c0 cs Ha Hd).
     apply (env_tail_spec [] assigns c0 cs); auto.
+Qed.
+
+(* no assignment sets such a variable: exactly the executed command is delegated, as before *)
+Lemma env_kept_none assigns : forallb (fun a => negb (sets_exec a)) assigns = true -> env_kept assigns = [].
+Proof.
+  induction assigns as [|a r IH]; [reflexivity|]. cbn [forallb env_kept filter]. intro H.
+  apply andb_true_iff in H as [Ha Hr]. apply negb_true_iff in Ha. rewrite Ha. exact (IH Hr).
+Qed.
+
+(* what is kept are assignment words of the list, in order, each setting an execution variable *)
+Lemma env_kept_spec assigns : forallb sets_exec (env_kept assigns) = true /\ (forall a, In a (env_kept assigns) -> In a assigns).
+Proof.
+  split.
+  - apply forallb_forall. intros a Ha. apply filter_In in Ha. exact (proj2 Ha).
+  - intros a Ha. apply filter_In in Ha. exact (proj1 Ha).
 Qed.
 
 Lemma env_formerly_refuted :
